@@ -207,7 +207,11 @@ func runCfg(n *node, f *frame, funcNode, callNode *node) {
 	defer func() {
 		f.mutex.Lock()
 		f.recovered = recover()
-		for _, val := range f.deferred {
+		deferred := f.deferred
+		// The frame is not locked while the deferred calls run: a deferred closure
+		// locks the frame it was defined in, which may be this one.
+		f.mutex.Unlock()
+		for _, val := range deferred {
 			func() {
 				// A panic raised by a deferred call replaces the one in flight,
 				// and the remaining deferred calls still run.
@@ -219,6 +223,7 @@ func runCfg(n *node, f *frame, funcNode, callNode *node) {
 				val[0].Call(val[1:])
 			}()
 		}
+		f.mutex.Lock()
 		if f.recovered != nil {
 			oNode := originalExecNode(n, exec)
 			if oNode == nil {
